@@ -259,8 +259,10 @@ end Penguin.C12
 poll the write side of ONE stream from several tasks at once.  The theorems below (suffix `_n`) are
 about EVERY reachable state `run sc ls` of EVERY scenario `sc` of `Model/WakerN` — any initial credit,
 any number of writer threads each with any number of polls, any number of `acknowledge(n)` /
-`disallow_write()` threads — under EVERY schedule `ls` of the atomic operations; induction over the
-step relation (`Lemmas/WakerN*.lean`).
+`disallow_write()` threads (the connection task's operations), any number of threads calling
+`do_shutdown()` through another handle of the stream (`sc.shutdowns`; `swap(true)` without any
+`wake()`) — under EVERY schedule `ls` of the atomic operations; induction over the step relation
+(`Lemmas/WakerN*.lean`).
 
 What holds exactly as for one writer: the credit arithmetic (the `compare_exchange` makes the
 decrement atomic with the check, so no unit is spent twice) and "closed writers fail".  What the ONE
@@ -276,8 +278,8 @@ open Penguin.WakerN Penguin.Lemmas.WakerN
     with the thread component of the waker names and the ghosts `lastReg` / `regMark` forgotten
     (`proj1`), is the run of `Model/Waker` under the same schedule. -/
 theorem one_writer_is_single_writer_model (credit polls : Nat) (actors : List ActorKind) (ls : List Waker.Label) :
-    ∃ w, (run ⟨credit, [polls], actors⟩ (ls.map lift1)).writers = [w] ∧
-      proj1 (run ⟨credit, [polls], actors⟩ (ls.map lift1)) w = Waker.run ⟨credit, polls, actors⟩ ls :=
+    ∃ w, (run ⟨credit, [polls], actors, 0⟩ (ls.map lift1)).writers = [w] ∧
+      proj1 (run ⟨credit, [polls], actors, 0⟩ (ls.map lift1)) w = Waker.run ⟨credit, polls, actors⟩ ls :=
   run_one_writer credit polls actors ls
 
 /-- Credit conservation with any number of writers racing each other and the acknowledgers: at every
@@ -356,48 +358,54 @@ theorem closed_writers_fail_n (sc : Scenario) (ls : List Label) :
   intro s w hw
   exact (winv_of_mem (run_inv sc ls) hw).log_closed
 
-/-- … and that flag is set exactly when some `disallow_write()` has performed its `swap`. -/
-theorem closed_iff_some_close_swapped_n (sc : Scenario) (ls : List Label) :
+/-- … and that flag is set exactly when some `disallow_write()` of the connection task has performed
+    its `swap` (`taskClosed`) or some `do_shutdown()` was called through a handle of the stream
+    (`Model/WakerN`, "foreign shutdowns"; at most as many as the scenario has such threads). -/
+theorem closed_iff_close_or_foreign_shutdown_n (sc : Scenario) (ls : List Label) :
+    let s := run sc ls
+    (s.closed = true ↔ taskClosed s = true ∨ 0 < s.shutdownsDone) ∧ s.shutdownsDone ≤ sc.shutdowns := by
+  intro s
+  have inv : Inv sc s := run_inv sc ls
+  have h6 := inv.shutdowns
+  refine ⟨?_, by omega⟩
+  rw [inv.closed_iff, taskClosed_iff]
+  omega
+
+/-- Without foreign shutdowns: the flag is set exactly when some `disallow_write()` has performed its
+    `swap`. -/
+theorem closed_iff_some_close_swapped_n (sc : Scenario) (ls : List Label) (hs : sc.shutdowns = 0) :
     let s := run sc ls
     s.closed = true ↔ ∃ a ∈ s.actors, a.isCloser = true ∧ a.pc ≠ .write := by
   intro s
   have inv : Inv sc s := run_inv sc ls
-  rw [inv.closed_iff]
-  constructor
-  · intro h
-    have : 0 < s.actors.countP Lemmas.Waker.pCloserMid ∨ 0 < s.actors.countP Lemmas.Waker.pCloserDone := by omega
-    rcases this with h | h <;> obtain ⟨a, ha, hp⟩ := List.countP_pos_iff.mp h
-    · simp [Lemmas.Waker.pCloserMid] at hp
-      exact ⟨a, ha, hp.1, by simp [hp.2]⟩
-    · simp [Lemmas.Waker.pCloserDone] at hp
-      exact ⟨a, ha, hp.1, by simp [hp.2]⟩
-  · rintro ⟨a, ha, hc, hpc⟩
-    cases hp : a.pc with
-    | write => exact absurd hp hpc
-    | wake =>
-      have : 0 < s.actors.countP Lemmas.Waker.pCloserMid :=
-        List.countP_pos_iff.mpr ⟨a, ha, by simp [Lemmas.Waker.pCloserMid, hc, hp]⟩
-      omega
-    | done =>
-      have : 0 < s.actors.countP Lemmas.Waker.pCloserDone :=
-        List.countP_pos_iff.mpr ⟨a, ha, by simp [Lemmas.Waker.pCloserDone, hc, hp]⟩
-      omega
+  rw [closed_eq_taskClosed inv hs]
+  simp only [taskClosed, List.any_eq_true, Bool.and_eq_true, bne_iff_ne, ne_eq]
 
 /-! ### Wake-ups with ONE waker slot and several waiting tasks
 
 The stream has one `AtomicWaker`.  A `register` replaces whatever the cell holds, also the waker of
 ANOTHER task; `wake()` wakes the waker that registered last.  So the guarantee of `no_lost_wakeup`
 ("a parked writer has nothing to do, or ITS waker was woken, or a wake is about to come") cannot hold
-for every writer — `two_writers_one_slot_full_fails` — and what does hold is: -/
+for every writer — `two_writers_one_slot_full_fails` — and what does hold is stated below, twice:
 
-/-- The stream-level guarantee: a writer that returned `Pending` from its last poll has nothing it
-    could do, or a wake-up has been delivered to the stream's waker slot AFTER that writer registered
-    (to its own waker or to one that registered later), or the `wake()` of an acknowledge / close
-    that already wrote is still to come. -/
-theorem no_lost_wakeup_slot_n (sc : Scenario) (ls : List Label) :
+* for EVERY scenario, foreign `do_shutdown()` calls included (theorems `…_task_n`,
+  `close_after_foreign_shutdown_wakes_n`, …): the guarantee is about what the CONNECTION TASK does —
+  `acknowledge` and `disallow_write` always wake after they wrote — so "nothing to do" reads "no
+  credit and the connection task has not closed the stream" (`taskClosed`).  A `do_shutdown()` through
+  another handle sets the flag and wakes nobody (`foreign_shutdown_alone_wakes_nobody`: the behaviour
+  of the code, C12 quantifies over the writer and the connection task); the connection task's later
+  close wakes, whoever set the flag first;
+* for scenarios WITHOUT foreign shutdowns (hypothesis `sc.shutdowns = 0`) in terms of the flag itself,
+  exactly as for one writer (`no_lost_wakeup_slot_n` … `replacing_registration_served_n`). -/
+
+/-- The stream-level guarantee, every scenario: a writer that returned `Pending` from its last poll
+    has no credit to take and the connection task has not closed the stream, or a wake-up has been
+    delivered to the stream's waker slot AFTER that writer registered (to its own waker or to one that
+    registered later), or the `wake()` of an acknowledge / close that already wrote is still to come. -/
+theorem no_lost_wakeup_slot_task_n (sc : Scenario) (ls : List Label) :
     let s := run sc ls
     ∀ w ∈ s.writers, w.parked = true →
-      (s.credit = 0 ∧ s.closed = false) ∨ 0 < wakesSinceReg s w ∨ wakePending s = true := by
+      (s.credit = 0 ∧ taskClosed s = false) ∨ 0 < wakesSinceReg s w ∨ wakePending s = true := by
   intro s w hw hp
   have inv : Inv sc s := run_inv sc ls
   have hv := view_of_mem inv hw
@@ -411,9 +419,9 @@ theorem no_lost_wakeup_slot_n (sc : Scenario) (ls : List Label) :
       refine ⟨a, ha, ?_⟩
       simp [Lemmas.Waker.pAckerMid] at hpa
       simp [hpa.2]
-    · by_cases hcl : s.closed = true
+    · by_cases hcl : taskClosed s = true
       · right; right
-        have hpos := inv.closed_iff.mp hcl
+        have hpos := (taskClosed_iff s).mp hcl
         have hmid : 0 < s.actors.countP Lemmas.Waker.pCloserMid := by omega
         obtain ⟨a, ha, hpa⟩ := List.countP_pos_iff.mp hmid
         simp only [wakePending, List.any_eq_true]
@@ -442,79 +450,132 @@ theorem wakeups_go_to_latest_registration_n (sc : Scenario) (ls : List Label) :
   · intro e
     exact (inv2.wid i _ (by simp [hi])).woken_cur (e ▸ hk)
 
-/-- The full per-writer guarantee holds for the writer whose registration is the latest one on the
-    stream (not replaced by a later `register`): if it is parked, it has nothing to do, or ITS waker
-    has been woken, or a `wake()` is still to come.  With one writer thread this is `no_lost_wakeup`. -/
-theorem latest_registration_not_lost_n (sc : Scenario) (ls : List Label) :
+/-- A wake-up delivered after the registration of a parked writer whose registration is still the
+    latest one on the stream went to that very writer. -/
+theorem wakeup_after_latest_registration_is_own_n (sc : Scenario) (ls : List Label) :
     let s := run sc ls
     ∀ i w, s.writers[i]? = some w → w.parked = true → replacedW s i w = false →
-      (s.credit = 0 ∧ s.closed = false) ∨ wokenW s i w = true ∨ wakePending s = true := by
-  intro s i w hw hp hr
+      0 < wakesSinceReg s w → wokenW s i w = true := by
+  intro s i w hw hp hr hpos
   have inv2 : Inv2 s := run_inv2 sc ls
   have hl : s.lastReg = some (i, w.cur) := by simpa [replacedW] using hr
   have hid := inv2.wid i w hw
   rcases hid.last_live (Or.inr (Or.inr hp)) hl with hreg | hwk
   · have hm := hid.reg_mark hreg
-    have hslot : (s.credit = 0 ∧ s.closed = false) ∨ 0 < wakesSinceReg s w ∨ wakePending s = true :=
-      no_lost_wakeup_slot_n sc ls w (List.mem_of_getElem? hw) hp
-    rcases hslot with h | h | h
-    · exact Or.inl h
-    · simp only [wakesSinceReg] at h; omega
-    · exact Or.inr (Or.inr h)
-  · right; left
-    simpa [wokenW] using hwk
+    simp only [wakesSinceReg] at hpos; omega
+  · simpa [wokenW] using hwk
 
-/-- Every parked writer: it has nothing to do; or its own waker was woken; or its registration was
-    REPLACED by a later `register` of another task and a wake-up has been delivered to the slot since
-    (to that later registration, see `wakeups_go_to_latest_registration_n`); or a `wake()` is still to
-    come.  The third case is the price of one slot: this writer itself may sleep on. -/
-theorem no_lost_wakeup_n (sc : Scenario) (ls : List Label) :
+/-- The full per-writer guarantee holds, in every scenario, for the writer whose registration is the
+    latest one on the stream (not replaced by a later `register`): if it is parked, it has no credit to
+    take and the connection task has not closed the stream, or ITS waker has been woken, or a `wake()`
+    is still to come. -/
+theorem latest_registration_not_lost_task_n (sc : Scenario) (ls : List Label) :
+    let s := run sc ls
+    ∀ i w, s.writers[i]? = some w → w.parked = true → replacedW s i w = false →
+      (s.credit = 0 ∧ taskClosed s = false) ∨ wokenW s i w = true ∨ wakePending s = true := by
+  intro s i w hw hp hr
+  have hslot : (s.credit = 0 ∧ taskClosed s = false) ∨ 0 < wakesSinceReg s w ∨ wakePending s = true :=
+    no_lost_wakeup_slot_task_n sc ls w (List.mem_of_getElem? hw) hp
+  rcases hslot with h | h | h
+  · exact Or.inl h
+  · exact Or.inr (Or.inl (wakeup_after_latest_registration_is_own_n sc ls i w hw hp hr h))
+  · exact Or.inr (Or.inr h)
+
+/-- Every parked writer, every scenario: it has no credit to take and the connection task has not
+    closed the stream; or its own waker was woken; or its registration was REPLACED by a later
+    `register` of another task and a wake-up has been delivered to the slot since (to that later
+    registration, see `wakeups_go_to_latest_registration_n`); or a `wake()` is still to come.  The
+    third case is the price of one slot: this writer itself may sleep on. -/
+theorem no_lost_wakeup_task_n (sc : Scenario) (ls : List Label) :
     let s := run sc ls
     ∀ i w, s.writers[i]? = some w → w.parked = true →
-      (s.credit = 0 ∧ s.closed = false) ∨ wokenW s i w = true ∨
+      (s.credit = 0 ∧ taskClosed s = false) ∨ wokenW s i w = true ∨
         (replacedW s i w = true ∧ 0 < wakesSinceReg s w) ∨ wakePending s = true := by
   intro s i w hw hp
   by_cases hr : replacedW s i w = true
-  · rcases no_lost_wakeup_slot_n sc ls w (List.mem_of_getElem? hw) hp with h | h | h
+  · have hslot : (s.credit = 0 ∧ taskClosed s = false) ∨ 0 < wakesSinceReg s w ∨ wakePending s = true :=
+      no_lost_wakeup_slot_task_n sc ls w (List.mem_of_getElem? hw) hp
+    rcases hslot with h | h | h
     · exact Or.inl h
     · exact Or.inr (Or.inr (Or.inl ⟨hr, h⟩))
     · exact Or.inr (Or.inr (Or.inr h))
-  · rcases latest_registration_not_lost_n sc ls i w hw hp (by simpa using hr) with h | h | h
+  · have hl : (s.credit = 0 ∧ taskClosed s = false) ∨ wokenW s i w = true ∨ wakePending s = true :=
+      latest_registration_not_lost_task_n sc ls i w hw hp (by simpa using hr)
+    rcases hl with h | h | h
     · exact Or.inl h
     · exact Or.inr (Or.inl h)
     · exact Or.inr (Or.inr (Or.inr h))
 
-/-- At quiescence (every actor thread has finished): a sleeping writer that could proceed or should
-    fail has been woken after it registered, or its registration was replaced and the wake-up went to
-    the slot after that. -/
-theorem no_lost_wakeup_quiescent_n (sc : Scenario) (ls : List Label) :
+/-- The connection task's close ALWAYS wakes, whoever set the flag first.  In every scenario (any
+    number of foreign `do_shutdown()` calls, before or after) and under every schedule: for a parked
+    writer, once some `disallow_write()` has completed — `swap` and the unconditional `wake()` both
+    done — a wake-up has been delivered to the stream's slot after that writer registered, and the
+    writer's own waker has been woken unless its registration was replaced by a later one (to which
+    the wake-up then went).  No quiescence is needed: a close that completed BEFORE the writer's re-check
+    makes that poll return `Ready(None)`, so it is not parked. -/
+theorem close_after_foreign_shutdown_wakes_n (sc : Scenario) (ls : List Label) :
     let s := run sc ls
-    allActorsDone s = true →
-    ∀ i w, s.writers[i]? = some w → w.parked = true → (0 < s.credit ∨ s.closed = true) →
-      wokenW s i w = true ∨ (replacedW s i w = true ∧ 0 < wakesSinceReg s w) := by
-  intro s hdone i w hw hp hcond
-  have hn : (s.credit = 0 ∧ s.closed = false) ∨ wokenW s i w = true ∨
-      (replacedW s i w = true ∧ 0 < wakesSinceReg s w) ∨ wakePending s = true :=
-    no_lost_wakeup_n sc ls i w hw hp
-  rcases hn with h | h | h | h
-  · rcases hcond with c | c
-    · omega
-    · rw [h.2] at c; exact absurd c (by decide)
-  · exact Or.inl h
-  · exact Or.inr h
-  · exfalso
-    simp only [wakePending, List.any_eq_true] at h
-    obtain ⟨a, ha, hwk⟩ := h
-    simp only [allActorsDone, List.all_eq_true] at hdone
-    have := hdone a ha
-    cases hpc : a.pc <;> simp_all
+    taskCloseCompleted s = true →
+    ∀ i w, s.writers[i]? = some w → w.parked = true →
+      0 < wakesSinceReg s w ∧ (wokenW s i w = true ∨ replacedW s i w = true) := by
+  intro s hc i w hw hp
+  have inv : Inv sc s := run_inv sc ls
+  have hv := inv.wok i w hw
+  have hcd := (taskCloseCompleted_iff s).mp hc
+  have hle := hv.mark_le
+  have hpos : 0 < wakesSinceReg s w := by
+    by_cases hm : w.regMark = s.wakeLog.length
+    · have := (hv.parked_ok hp hm).1; omega
+    · simp only [wakesSinceReg]; omega
+  refine ⟨hpos, ?_⟩
+  by_cases hr : replacedW s i w = true
+  · exact Or.inr hr
+  · exact Or.inl (wakeup_after_latest_registration_is_own_n sc ls i w hw hp (by simpa using hr) hpos)
 
-/-- … and the task that took the slot is served: at quiescence, if credit is available or the stream
-    is closed, the writer `j` of the latest registration `(j, k)` has been woken through that very
-    waker, or it is not asleep (its last poll returned `Ready`: it saw the condition). -/
-theorem replacing_registration_served_n (sc : Scenario) (ls : List Label) :
+/-- … and while the close is between its `swap` and its `wake()`, the wake is still to come: a parked
+    writer of a stream the connection task has closed (`swap` done) has been served as above, or some
+    `wake()` is the next operation of an actor thread. -/
+theorem close_in_progress_will_wake_n (sc : Scenario) (ls : List Label) :
     let s := run sc ls
-    allActorsDone s = true → (0 < s.credit ∨ s.closed = true) →
+    taskClosed s = true →
+    ∀ i w, s.writers[i]? = some w → w.parked = true →
+      wokenW s i w = true ∨ (replacedW s i w = true ∧ 0 < wakesSinceReg s w) ∨ wakePending s = true := by
+  intro s hc i w hw hp
+  have hn : (s.credit = 0 ∧ taskClosed s = false) ∨ wokenW s i w = true ∨
+      (replacedW s i w = true ∧ 0 < wakesSinceReg s w) ∨ wakePending s = true :=
+    no_lost_wakeup_task_n sc ls i w hw hp
+  rcases hn with h | h | h | h
+  · rw [hc] at h; exact absurd h.2 (by decide)
+  · exact Or.inl h
+  · exact Or.inr (Or.inl h)
+  · exact Or.inr (Or.inr h)
+
+/-- At quiescence of a scenario that contains at least one `disallow_write()` — the connection task
+    closes every flow sooner or later: peer `Reset`, `Finish` exchange, wind-down —, whatever foreign
+    shutdowns happened and whenever: no writer is left parked with its waker unwoken, except one whose
+    registration was replaced by a later registration, to which the wake-up went. -/
+theorem no_writer_left_unwoken_after_close_n (sc : Scenario) (ls : List Label) :
+    let s := run sc ls
+    allActorsDone s = true → (∃ a ∈ s.actors, a.isCloser = true) →
+    ∀ i w, s.writers[i]? = some w → w.parked = true →
+      wokenW s i w = true ∨ (replacedW s i w = true ∧ 0 < wakesSinceReg s w) := by
+  intro s hdone ⟨a, ha, hcl⟩ i w hw hp
+  have hc : taskCloseCompleted s = true := by
+    simp only [taskCloseCompleted, List.any_eq_true]
+    simp only [allActorsDone, List.all_eq_true] at hdone
+    exact ⟨a, ha, by simp [hcl, hdone a ha]⟩
+  have h : 0 < wakesSinceReg s w ∧ (wokenW s i w = true ∨ replacedW s i w = true) :=
+    close_after_foreign_shutdown_wakes_n sc ls hc i w hw hp
+  rcases h.2 with h2 | h2
+  · exact Or.inl h2
+  · exact Or.inr ⟨h2, h.1⟩
+
+/-- … and the task that took the slot is served, every scenario: at quiescence, if credit is available
+    or the connection task has closed the stream, the writer `j` of the latest registration `(j, k)`
+    has been woken through that very waker, or it is not asleep (its last poll returned `Ready`). -/
+theorem replacing_registration_served_task_n (sc : Scenario) (ls : List Label) :
+    let s := run sc ls
+    allActorsDone s = true → (0 < s.credit ∨ taskClosed s = true) →
     ∀ j k, s.lastReg = some (j, k) →
       ∃ v, s.writers[j]? = some v ∧ ((j, k) ∈ s.wakeLog ∨ v.parked = false) := by
   intro s hdone hcond j k hl
@@ -531,12 +592,95 @@ theorem replacing_registration_served_n (sc : Scenario) (ls : List Label) :
     have hk : k = v.cur := (hid.last_cur k hl).mpr hreg
     subst hk
     have hr : replacedW s j v = false := by simp [replacedW, hl]
-    have hq : wokenW s j v = true ∨ (replacedW s j v = true ∧ 0 < wakesSinceReg s v) :=
-      no_lost_wakeup_quiescent_n sc ls hdone j v hv hp hcond
-    rcases hq with h | h
+    have hq : (s.credit = 0 ∧ taskClosed s = false) ∨ wokenW s j v = true ∨ wakePending s = true :=
+      latest_registration_not_lost_task_n sc ls j v hv hp hr
+    rcases hq with h | h | h
+    · rcases hcond with c | c
+      · omega
+      · rw [h.2] at c; exact absurd c (by decide)
     · simpa [wokenW] using h
-    · have := h.1; rw [hr] at this; exact absurd this (by decide)
+    · exfalso
+      simp only [wakePending, List.any_eq_true] at h
+      obtain ⟨a, ha, hwk⟩ := h
+      simp only [allActorsDone, List.all_eq_true] at hdone
+      have := hdone a ha
+      cases hpc : a.pc <;> simp_all
   · right; simpa using hp
+
+/-! #### Scenarios without foreign shutdowns: the same in terms of the flag `finish_sent` itself -/
+
+/-- The stream-level guarantee: a writer that returned `Pending` from its last poll has nothing it
+    could do, or a wake-up has been delivered to the stream's waker slot AFTER that writer registered
+    (to its own waker or to one that registered later), or the `wake()` of an acknowledge / close
+    that already wrote is still to come. -/
+theorem no_lost_wakeup_slot_n (sc : Scenario) (ls : List Label) (hs : sc.shutdowns = 0) :
+    let s := run sc ls
+    ∀ w ∈ s.writers, w.parked = true →
+      (s.credit = 0 ∧ s.closed = false) ∨ 0 < wakesSinceReg s w ∨ wakePending s = true := by
+  intro s w hw hp
+  rw [closed_eq_taskClosed (run_inv sc ls) hs]
+  exact no_lost_wakeup_slot_task_n sc ls w hw hp
+
+/-- The full per-writer guarantee holds for the writer whose registration is the latest one on the
+    stream (not replaced by a later `register`): if it is parked, it has nothing to do, or ITS waker
+    has been woken, or a `wake()` is still to come.  With one writer thread this is `no_lost_wakeup`. -/
+theorem latest_registration_not_lost_n (sc : Scenario) (ls : List Label) (hs : sc.shutdowns = 0) :
+    let s := run sc ls
+    ∀ i w, s.writers[i]? = some w → w.parked = true → replacedW s i w = false →
+      (s.credit = 0 ∧ s.closed = false) ∨ wokenW s i w = true ∨ wakePending s = true := by
+  intro s i w hw hp hr
+  rw [closed_eq_taskClosed (run_inv sc ls) hs]
+  exact latest_registration_not_lost_task_n sc ls i w hw hp hr
+
+/-- Every parked writer: it has nothing to do; or its own waker was woken; or its registration was
+    REPLACED by a later `register` of another task and a wake-up has been delivered to the slot since
+    (to that later registration, see `wakeups_go_to_latest_registration_n`); or a `wake()` is still to
+    come.  The third case is the price of one slot: this writer itself may sleep on. -/
+theorem no_lost_wakeup_n (sc : Scenario) (ls : List Label) (hs : sc.shutdowns = 0) :
+    let s := run sc ls
+    ∀ i w, s.writers[i]? = some w → w.parked = true →
+      (s.credit = 0 ∧ s.closed = false) ∨ wokenW s i w = true ∨
+        (replacedW s i w = true ∧ 0 < wakesSinceReg s w) ∨ wakePending s = true := by
+  intro s i w hw hp
+  rw [closed_eq_taskClosed (run_inv sc ls) hs]
+  exact no_lost_wakeup_task_n sc ls i w hw hp
+
+/-- At quiescence (every actor thread has finished): a sleeping writer that could proceed or should
+    fail has been woken after it registered, or its registration was replaced and the wake-up went to
+    the slot after that. -/
+theorem no_lost_wakeup_quiescent_n (sc : Scenario) (ls : List Label) (hs : sc.shutdowns = 0) :
+    let s := run sc ls
+    allActorsDone s = true →
+    ∀ i w, s.writers[i]? = some w → w.parked = true → (0 < s.credit ∨ s.closed = true) →
+      wokenW s i w = true ∨ (replacedW s i w = true ∧ 0 < wakesSinceReg s w) := by
+  intro s hdone i w hw hp hcond
+  have hn : (s.credit = 0 ∧ s.closed = false) ∨ wokenW s i w = true ∨
+      (replacedW s i w = true ∧ 0 < wakesSinceReg s w) ∨ wakePending s = true :=
+    no_lost_wakeup_n sc ls hs i w hw hp
+  rcases hn with h | h | h | h
+  · rcases hcond with c | c
+    · omega
+    · rw [h.2] at c; exact absurd c (by decide)
+  · exact Or.inl h
+  · exact Or.inr h
+  · exfalso
+    simp only [wakePending, List.any_eq_true] at h
+    obtain ⟨a, ha, hwk⟩ := h
+    simp only [allActorsDone, List.all_eq_true] at hdone
+    have := hdone a ha
+    cases hpc : a.pc <;> simp_all
+
+/-- … and the task that took the slot is served: at quiescence, if credit is available or the stream
+    is closed, the writer `j` of the latest registration `(j, k)` has been woken through that very
+    waker, or it is not asleep (its last poll returned `Ready`: it saw the condition). -/
+theorem replacing_registration_served_n (sc : Scenario) (ls : List Label) (hs : sc.shutdowns = 0) :
+    let s := run sc ls
+    allActorsDone s = true → (0 < s.credit ∨ s.closed = true) →
+    ∀ j k, s.lastReg = some (j, k) →
+      ∃ v, s.writers[j]? = some v ∧ ((j, k) ∈ s.wakeLog ∨ v.parked = false) := by
+  intro s hdone hcond j k hl
+  rw [closed_eq_taskClosed (run_inv sc ls) hs] at hcond
+  exact replacing_registration_served_task_n sc ls hdone hcond j k hl
 
 /-! #### The negative witness: the per-writer guarantee is FALSE with one slot
 
@@ -548,7 +692,7 @@ task will be polled again and can use the unit; a unit it does not need stays un
 acknowledgement although writer 0 waits for it.)  loom reaches the same outcome on the real code:
 `res=P,P;credit=1;wakes=0,1;after=1,1;closed=0;frames=0` of scenario `c0-w2-a1`. -/
 
-def oneSlotScenario : Scenario := ⟨0, [1, 1], [.ack 1]⟩
+def oneSlotScenario : Scenario := ⟨0, [1, 1], [.ack 1], 0⟩
 def oneSlotSchedule : List Label :=
   [.writer 0, .writer 0, .writer 0, .writer 0, .writer 0,
    .writer 1, .writer 1, .writer 1, .writer 1, .writer 1, .actor 0, .actor 0]
@@ -562,15 +706,16 @@ theorem two_writers_one_slot_witness :
   decide
 
 /-- The statement of `no_lost_wakeup_quiescent` for EVERY writer of a stream ("a parked writer has
-    nothing to do or its own waker was woken") does not hold when two tasks wait on one stream. -/
+    nothing to do or its own waker was woken") does not hold when two tasks wait on one stream —
+    also without any foreign shutdown (`sc.shutdowns = 0`): it is the one slot that breaks it. -/
 theorem two_writers_one_slot_full_fails :
-    ¬ (∀ (sc : Scenario) (ls : List Label),
+    ¬ (∀ (sc : Scenario) (ls : List Label), sc.shutdowns = 0 →
         let s := run sc ls
         allActorsDone s = true →
         ∀ i w, s.writers[i]? = some w → w.parked = true →
           (s.credit = 0 ∧ s.closed = false) ∨ wokenW s i w = true) := by
   intro h
-  have hw := h oneSlotScenario oneSlotSchedule (by decide) 0
+  have hw := h oneSlotScenario oneSlotSchedule rfl (by decide) 0
   cases e : (run oneSlotScenario oneSlotSchedule).writers[0]? with
   | none => exact absurd e (by decide)
   | some w =>
@@ -588,12 +733,12 @@ theorem two_writers_one_slot_full_fails :
 /-- two writers that both loaded the last unit: one `compare_exchange` succeeds, the other fails,
     re-loads 0, registers, re-checks and parks — ONE frame, credit 0 -/
 example :
-    let s := run ⟨1, [1, 1], []⟩ [.writer 0, .writer 1, .writer 0, .writer 1]
+    let s := run ⟨1, [1, 1], [], 0⟩ [.writer 0, .writer 1, .writer 0, .writer 1]
     s.credit = 1 ∧ s.writers.map (·.pc) = [.cas 1, .cas 1] ∧ inFlight s = 0 ∧ grantsToCome s = 0 := by
   decide
 
 example :
-    let s := run ⟨1, [1, 1], []⟩ ([.writer 0, .writer 1, .writer 0, .writer 1] ++
+    let s := run ⟨1, [1, 1], [], 0⟩ ([.writer 0, .writer 1, .writer 0, .writer 1] ++
       [.writer 1, .writer 0, .writer 0, .writer 0, .writer 0, .writer 0, .writer 1])
     allWritersFinished s = true ∧ s.writers.map (·.results) = [[.pending], [.some]] ∧ s.credit = 0 ∧
       totalSent s = 1 ∧ totalTakes s = 1 := by
@@ -601,7 +746,7 @@ example :
 
 /-- conservation with a grant racing two takes: 1 + 2 granted, two frames, one unit left -/
 example :
-    let s := run ⟨1, [1, 1], [.ack 2]⟩ [.writer 0, .writer 0, .actor 0, .writer 1, .writer 1, .writer 0,
+    let s := run ⟨1, [1, 1], [.ack 2], 0⟩ [.writer 0, .writer 0, .actor 0, .writer 1, .writer 1, .writer 0,
       .writer 0, .writer 0, .writer 0, .writer 1, .writer 1, .writer 1, .writer 1, .actor 0]
     allWritersFinished s = true ∧ s.writers.map (·.results) = [[.some], [.some]] ∧ s.credit = 1 ∧
       s.grants = 2 ∧ totalSent s = 2 ∧ s.writers.map (·.takes) = [[3], [2]] := by
@@ -609,14 +754,14 @@ example :
 
 /-- a parked writer whose own waker was woken (it is the latest registration) -/
 example :
-    let s := run ⟨0, [1, 1], [.ack 1]⟩ [.writer 1, .writer 1, .writer 1, .writer 1, .writer 1, .actor 0, .actor 0]
+    let s := run ⟨0, [1, 1], [.ack 1], 0⟩ [.writer 1, .writer 1, .writer 1, .writer 1, .writer 1, .actor 0, .actor 0]
     (s.writers[1]?.map fun w => (w.parked, replacedW s 1 w, wokenW s 1 w)) = some (true, false, true) ∧
       s.credit = 1 := by
   decide
 
 /-- closed: a poll of writer 1 that starts after the `swap` fails; writer 0, parked before, is woken -/
 example :
-    let s := run ⟨0, [1, 1], [.close]⟩ [.writer 0, .writer 0, .writer 0, .writer 0, .writer 0, .actor 0,
+    let s := run ⟨0, [1, 1], [.close], 0⟩ [.writer 0, .writer 0, .writer 0, .writer 0, .writer 0, .actor 0,
       .writer 1, .actor 0]
     s.writers.map (·.log) = [[(false, .pending)], [(true, .none)]] ∧ s.closed = true ∧
       s.wakeLog = [(0, 0)] := by
@@ -625,10 +770,66 @@ example :
 /-- the latest registration belongs to a writer that is not asleep (it saw the credit in its re-check),
     while the replaced writer sleeps with one unit left: `replacing_registration_served_n`, second case -/
 example :
-    let s := run ⟨0, [1, 1], [.ack 2]⟩ [.writer 0, .writer 0, .writer 0, .writer 0, .writer 0,
+    let s := run ⟨0, [1, 1], [.ack 2], 0⟩ [.writer 0, .writer 0, .writer 0, .writer 0, .writer 0,
       .writer 1, .writer 1, .writer 1, .actor 0, .writer 1, .writer 1, .writer 1, .writer 1, .actor 0]
     allActorsDone s = true ∧ allWritersFinished s = true ∧ s.credit = 1 ∧ s.lastReg = some (1, 0) ∧
       s.writers.map (·.results) = [[.pending], [.some]] ∧ s.wakeLog = [(1, 0)] := by
+  decide
+
+/-! #### Foreign shutdown: `do_shutdown()` through another handle of the stream
+
+`MuxStream::do_shutdown(&self)` sets `finish_sent` and wakes nobody.  That is the behaviour of the code
+and not a violation of C12, which is about the writer and the CONNECTION TASK: the witness below
+documents it; `close_after_foreign_shutdown_wakes_n` / `no_writer_left_unwoken_after_close_n` above say
+what the connection task's close then guarantees. -/
+
+/-- No credit, one writer, one `do_shutdown()` thread, no operation of the connection task.  The writer
+    polls (loads, registers, re-checks) and returns `Pending`; then the shutdown runs.  Everything has
+    finished: the flag is set, the writer is parked, its waker is still in the cell and was never
+    woken, no `wake()` is pending — although a re-poll would return `Ready(None)` (second conjunct: the
+    same schedule with a writer of two polls, the second of which starts after the shutdown). -/
+theorem foreign_shutdown_alone_wakes_nobody :
+    (let s := run ⟨0, [1], [], 1⟩ [.writer 0, .writer 0, .writer 0, .writer 0, .writer 0, .shutdown]
+     allWritersFinished s = true ∧ allActorsDone s = true ∧ s.shutdownsLeft = 0 ∧ s.closed = true ∧
+       taskClosed s = false ∧ s.writers.map (·.parked) = [true] ∧ s.registered = some (0, 0) ∧
+       s.wakeLog = [] ∧ wakePending s = false) ∧
+    (let s := run ⟨0, [2], [], 1⟩ [.writer 0, .writer 0, .writer 0, .writer 0, .writer 0, .shutdown, .writer 0]
+     s.writers.map (·.results) = [[.pending, .none]] ∧ s.wakeLog = []) := by
+  decide
+
+/-- the connection task's close after a foreign shutdown (flag already set by `do_shutdown`): the
+    `swap` changes nothing, the unconditional `wake()` wakes the parked writer —
+    `close_after_foreign_shutdown_wakes_n` / `no_writer_left_unwoken_after_close_n`, non-vacuity -/
+example :
+    let s := run ⟨0, [1], [.close], 1⟩ [.writer 0, .writer 0, .writer 0, .writer 0, .writer 0, .shutdown,
+      .actor 0, .actor 0]
+    allActorsDone s = true ∧ taskCloseCompleted s = true ∧ s.shutdownsDone = 1 ∧
+      (s.writers[0]?.map fun w => (w.parked, wokenW s 0 w, wakesSinceReg s w)) = some (true, true, 1) := by
+  decide
+
+/-- the same with the close in progress: flag set twice, the `wake()` still to come
+    (`close_in_progress_will_wake_n`, third case) -/
+example :
+    let s := run ⟨0, [1], [.close], 1⟩ [.writer 0, .writer 0, .writer 0, .writer 0, .writer 0, .shutdown, .actor 0]
+    taskClosed s = true ∧ taskCloseCompleted s = false ∧ wakePending s = true ∧
+      (s.writers[0]?.map fun w => (w.parked, wokenW s 0 w)) = some (true, false) := by
+  decide
+
+/-- two writers parked, foreign shutdown, then the close: the wake-up goes to the latest registration
+    (writer 1); writer 0's registration was replaced — the second disjunct of
+    `no_writer_left_unwoken_after_close_n` -/
+example :
+    let s := run ⟨0, [1, 1], [.close], 1⟩ [.writer 0, .writer 0, .writer 0, .writer 0, .writer 0,
+      .writer 1, .writer 1, .writer 1, .writer 1, .writer 1, .shutdown, .actor 0, .actor 0]
+    allActorsDone s = true ∧ s.writers.map (·.parked) = [true, true] ∧ s.wakeLog = [(1, 0)] ∧
+      (s.writers[0]?.map fun w => (wokenW s 0 w, replacedW s 0 w, wakesSinceReg s w)) = some (false, true, 1) := by
+  decide
+
+/-- a poll that starts after a foreign shutdown fails like one that starts after a close
+    (`closed_writers_fail_n`, `closed_iff_close_or_foreign_shutdown_n`) -/
+example :
+    let s := run ⟨1, [1], [], 1⟩ [.shutdown, .writer 0]
+    s.writers.map (·.log) = [[(true, .none)]] ∧ s.closed = true ∧ taskClosed s = false ∧ s.credit = 1 := by
   decide
 
 end Penguin.C12
